@@ -3,7 +3,8 @@ import MorfuseModel.Unwind.Timing
 # Unwind model — one termination bound for programs that nest (thread chains, mutual recursion)
 
 Class `Nest prog` (decidable, syntactic): every opcode is `nop`, a jump, a counter opcode, `println`, `end`,
-`error "x" 1` (abort) or `thread l` with a valid label — no `wait`, `waitthread`, `waittill`, `notify`
+`error "x" 1` (abort), `thread l` with a valid label or `wait d` (its delay is constrained by `WaitOK`:
+not due before the next frame) — no `waitthread`, `waittill`, `notify`
 (nothing that re-times a thread or wakes another one), no recoverable `error "x"`.
 
 Potential: a `ScriptVM::Execute` frame with `n` instructions executed, sitting at height
@@ -22,6 +23,7 @@ def GOp (nlabels : Nat) : Op → Bool
   | .loopTest _ => true
   | .print _ => true
   | .done => true
+  | .wait _ => true
   | .raise ab => ab
   | .spawn l w => !w && decide (l < nlabels)
   | _ => false
@@ -215,6 +217,13 @@ theorem execOp_good (E : Env) (hcls : Nest E.prog = true) (s : St) (t : Tid) (th
   case loopTest => split <;> exact ⟨hme, (by dsimp only; apply nojoin_upd h.nojoin; intro _ hx; exact hx), hnone⟩
   case print => exact ⟨hme, (by dsimp only; apply nojoin_upd h.nojoin; intro _ hx; exact hx), hnone⟩
   case done => exact ⟨hme, endThread_nojoin h.nojoin t, by simpa using hnone⟩
+  case wait ms =>
+    refine ⟨hme, ?_, by simpa using hnone⟩
+    dsimp only
+    have h1 : NoJoin (upd s.threads t (fun x => { x with pc := th.pc + 1 })) := by
+      apply nojoin_upd h.nojoin; intro _ hx; exact hx
+    have h2 := stopThread_nojoin (s := { s with threads := upd s.threads t (fun x => { x with pc := th.pc + 1 }) }) h1 t
+    apply nojoin_upd h2; intro _ hx; exact hx
   case raise ab =>
     subst hop
     exact ⟨hme, (by dsimp only; apply nojoin_upd h.nojoin; intro _ hx; exact hx), by intro e he; simp at he; subst he; rfl⟩
